@@ -637,6 +637,144 @@ func main() {
 	}
 	emitRows(&b, "gen_globals_table", rows)
 
+	// 1a. config.StringToInterface, case Float64: does it refuse NaN and the infinities (an if whose condition calls
+	// math.IsNaN and math.IsInf and whose body returns)?
+	{
+		uf := parseFile(filepath.Join(root, "core/config/utils.go"))
+		fd := findFunc(uf, "", "StringToInterface")
+		if fd == nil {
+			die("config.StringToInterface not found")
+		}
+		finite, seenCase := false, false
+		ast.Inspect(fd.Body, func(n ast.Node) bool {
+			cc, ok := n.(*ast.CaseClause)
+			if !ok || len(cc.List) != 1 {
+				return true
+			}
+			if id, ok := cc.List[0].(*ast.Ident); !ok || id.Name != "Float64" {
+				return true
+			}
+			seenCase = true
+			for _, st := range cc.Body {
+				ifs, ok := st.(*ast.IfStmt)
+				if !ok {
+					continue
+				}
+				nan, inf, ret := false, false, false
+				ast.Inspect(ifs.Cond, func(m ast.Node) bool {
+					if se, ok := m.(*ast.SelectorExpr); ok {
+						nan = nan || se.Sel.Name == "IsNaN"
+						inf = inf || se.Sel.Name == "IsInf"
+					}
+					return true
+				})
+				for _, b := range ifs.Body.List {
+					if r, ok := b.(*ast.ReturnStmt); ok && len(r.Results) == 2 {
+						if id, ok := r.Results[0].(*ast.Ident); ok && id.Name == "nil" {
+							ret = true
+						}
+					}
+				}
+				finite = finite || (nan && inf && ret)
+			}
+			return false
+		})
+		if !seenCase {
+			die("StringToInterface: case Float64 not found")
+		}
+		fmt.Fprintf(&b, "(* config.StringToInterface refuses NaN and the infinities for Float64 settings *)\nDefinition gen_globals_float_finite_only : bool := %v.\n\n", finite)
+	}
+
+	// 1b. how the chain reads each global back: chain.ConfigImpl.Update calls cf.GetX(config.Name); GetX of
+	// minersc.GlobalSettings parses with config.StringToInterface(v, config.T) (GetString: no parse)
+	{
+		f := parseFile(filepath.Join(root, "core/config/globals.go"))
+		gname := nameAssignments(f, "initGlobalSettingNames", "GlobalSettingName")
+		gf := parseFile(filepath.Join(root, "smartcontract/minersc/globals.go"))
+		getterTy := map[string]string{}
+		for _, d := range gf.Decls {
+			fd, ok := d.(*ast.FuncDecl)
+			if !ok || fd.Recv == nil || !strings.HasPrefix(fd.Name.Name, "Get") || fd.Body == nil {
+				continue
+			}
+			if rt := recvTypeName(fd); rt != "GlobalSettings" {
+				continue
+			}
+			found := ""
+			ast.Inspect(fd.Body, func(n ast.Node) bool {
+				c, ok := n.(*ast.CallExpr)
+				if !ok || len(c.Args) != 2 {
+					return true
+				}
+				if se, ok := c.Fun.(*ast.SelectorExpr); ok && se.Sel.Name == "StringToInterface" {
+					if ts, ok := c.Args[1].(*ast.SelectorExpr); ok {
+						if found != "" && found != ts.Sel.Name {
+							die("getter %s parses with two types", fd.Name.Name)
+						}
+						found = ts.Sel.Name
+					}
+				}
+				return true
+			})
+			if found == "" {
+				if fd.Name.Name != "GetString" {
+					continue // not a value getter (or one the translator cannot read: its use below fails closed)
+				}
+				found = "String"
+			}
+			t, ok := tyBySel[found]
+			if !ok {
+				die("getter %s: unknown type %s", fd.Name.Name, found)
+			}
+			getterTy[fd.Name.Name] = tyName[t]
+		}
+		cfile := parseFile(filepath.Join(root, "chaincore/chain/config.go"))
+		if findFunc(cfile, "ConfigImpl", "Update") == nil {
+			die("chain.ConfigImpl.Update not found")
+		}
+		// Update and the helpers it hands cf to (UpdateHealthCheckSettings): every cf.GetX(config.Name) of the file
+		var cons []row
+		seen := map[string]string{}
+		ast.Inspect(cfile, func(n ast.Node) bool {
+			c, ok := n.(*ast.CallExpr)
+			if !ok || len(c.Args) != 1 {
+				return true
+			}
+			se, ok := c.Fun.(*ast.SelectorExpr)
+			if !ok || !strings.HasPrefix(se.Sel.Name, "Get") {
+				return true
+			}
+			if id, ok := se.X.(*ast.Ident); !ok || id.Name != "cf" {
+				return true
+			}
+			arg, ok := c.Args[0].(*ast.SelectorExpr)
+			if !ok {
+				die("ConfigImpl.Update: argument of %s is not config.Name", se.Sel.Name)
+			}
+			name, ok := gname[arg.Sel.Name]
+			if !ok {
+				die("ConfigImpl.Update: %s has no setting name", arg.Sel.Name)
+			}
+			ty, ok := getterTy[se.Sel.Name]
+			if !ok {
+				die("ConfigImpl.Update: getter %s of %s cannot be resolved to a parse type", se.Sel.Name, name)
+			}
+			if old, dup := seen[name]; dup {
+				if old != ty {
+					die("chain config reads %s with two types (%s, %s)", name, old, ty)
+				}
+				return true
+			}
+			seen[name] = ty
+			cons = append(cons, row{name, ty, true})
+			return true
+		})
+		if len(cons) < 10 {
+			die("ConfigImpl.Update: suspiciously few reads")
+		}
+		emitRows(&b, "gen_globals_consumers", cons)
+	}
+
 	// 2. minersc
 	emitRows(&b, "gen_minersc_table", tableContract(filepath.Join(root, "smartcontract/minersc/settings.go"), "GlobalNode"))
 
@@ -725,4 +863,18 @@ func main() {
 		die("%v", err)
 	}
 	fmt.Println("settings tables rewritten:", out)
+}
+
+func recvTypeName(fd *ast.FuncDecl) string {
+	if fd.Recv == nil || len(fd.Recv.List) != 1 {
+		return ""
+	}
+	t := fd.Recv.List[0].Type
+	if s, ok := t.(*ast.StarExpr); ok {
+		t = s.X
+	}
+	if id, ok := t.(*ast.Ident); ok {
+		return id.Name
+	}
+	return ""
 }
